@@ -5,7 +5,7 @@
 
       raw text, {print e} with directives (|d₁:a₁,…|d₂ …, arguments in the expression fragment), {css},
       {debugger}, {log}, {if}/{elseif}/{else},
-      {switch}/{case}/{default},
+      {switch}/{case}/{default} (the matching case wherever it stands, else the first {default}),
       {foreach $x in L}…{ifempty}… / {for $i in L} with L a list literal [e₁, …], range(a[, b[, s]]) or a
         variable $l,
       {let $x: e /}, {let $x}…{/let},
@@ -266,6 +266,20 @@ def AgreeT (st : St) (r : R) : Out Bytes → Prop
   | .val out => r.cls = .ok ∧ bufBytes r.st.out = bufBytes st.out ++ out
   | .error => r.cls = .err
   | .unspec => True
+
+/-- the rest of a {switch} after its cases were tried: the matching case's text, else the remembered
+    {default} (`sd`), else `tail` (the first default among the cases not yet passed) -/
+def specRest (sd : Option (Spec.Eval.Env → Out Bytes)) (tail : Out Bytes) (env : Spec.Eval.Env) : Option Bytes → Out Bytes
+  | some out => .val out
+  | none => match sd with
+    | some s => s env
+    | none => tail
+
+/-- the {default} the interpreter remembered against the one the specification will fall back to -/
+def DfltRel (coll : Bytes → Bool) (g : GEnv) (entry : Spec.Eval.Binds) (dflt : Option Run) (sd : Option (Spec.Eval.Env → Out Bytes)) : Prop :=
+  (dflt = none ∧ sd = none) ∨
+  ∃ d s, dflt = some d ∧ sd = some s ∧ ∀ ctx st env, Rel coll g entry ctx st env → Own ctx st → ScopeOk ctx st →
+    AgreeB coll g entry ctx st env (d ctx st) (s env)
 
 theorem absV_undefined (mv : Value) (h : absV mv = .undefined) : mv = .undefined := by
   cases mv <;> simp [absV] at h ⊢
@@ -1364,15 +1378,26 @@ theorem cmd_agree : (c : Cmd) → cfrag coll c = true → ∀ (ctx : Scope) (st 
       have hr1 : Rel coll g entry ctx st1 env := hr.of_heap hheap
       have hok1 : ScopeOk ctx st1 := fun f hf' => by rw [hheap]; exact hok f hf'
       have hown1 : Own ctx st1 := hown.ext (evalIn_ext (fun _ => False) he)
-      have hc := cases_agree cases mv hsc hf.2 ctx st1 env hr1 hown1 hok1
+      have hc := cases_agree cases mv hsc hf.2 none none (Or.inl ⟨rfl, rfl⟩) ctx st1 env hr1 hown1 hok1
       rw [habs] at hc
-      simp only [Spec.Eval.Out.bind, he]
+      have hrc : Spec.Eval.renderCases reg hasBundle esc entry scall dsem cases v env =
+          (Spec.Eval.renderMatch reg hasBundle esc entry scall dsem cases v env).bind
+            (specRest none (Spec.Eval.renderDefault reg hasBundle esc entry scall dsem cases env) env) := by
+        rw [Spec.Eval.renderCases]; congr 1
+      rw [← hrc] at hc
+      have hsw : ((Spec.Eval.renderMatch reg hasBundle esc entry scall dsem cases v env).bind
+          (Spec.Eval.orDefault fun _ => Spec.Eval.renderDefault reg hasBundle esc entry scall dsem cases env)) =
+          Spec.Eval.renderCases reg hasBundle esc entry scall dsem cases v env := rfl
+      simp only [he]
+      rw [Spec.Eval.Out.bind]
+      simp only [hsw]
       cases hcv : Spec.Eval.renderCases reg hasBundle esc entry scall dsem cases v env with
-      | unspec => simp [Agree]
-      | error => rw [hcv] at hc; simpa [Agree, AgreeB] using hc
+      | unspec => simp [Agree, Spec.Eval.Out.bind]
+      | error => rw [hcv] at hc; simpa [Agree, AgreeB, Spec.Eval.Out.bind] using hc
       | val out =>
         rw [hcv] at hc
         simp only [AgreeB] at hc
+        simp only [Spec.Eval.Out.bind, Agree]
         exact ⟨hc.1, by rw [hc.2.1, hout], hc.2.2⟩
   | .call p name true (some d) ps, hf, _, _, _, _, _, _ => by simp [cfrag] at hf
   | .call p name false (some d) ps, hf, ctx, st, env, hr, hown, hok => by
@@ -1568,41 +1593,79 @@ theorem cmds_agree : (cs : CmdList) → csFrag coll cs = true → ∀ (ctx : Sco
         simp only [Agree] at h2 ⊢
         exact ⟨h2.1, by rw [h2.2.1, hbytes]; simp, h2.2.2⟩
 theorem cases_agree : (cs : CaseList) → (sv : Value) → Scalar sv = true → casesFrag coll cs = true →
+    ∀ (dflt : Option Run) (sd : Option (Spec.Eval.Env → Out Bytes)), DfltRel coll g entry dflt sd →
     ∀ (ctx : Scope) (st : St) (env : Spec.Eval.Env), Rel coll g entry ctx st env → Own ctx st → ScopeOk ctx st →
-    AgreeB coll g entry ctx st env (execCases g esc call cs sv ctx st)
-      (Spec.Eval.renderCases reg hasBundle esc entry scall dsem cs (absV sv) env)
-  | .nil, _, _, _, ctx, st, env, hr, _, _ => by
-    rw [execCases, Spec.Eval.renderCases]; exact ⟨rfl, by simp, hr⟩
-  | .cons _ values body rest, sv, hsv, hf, ctx, st, env, hr, hown, hok => by
+    AgreeB coll g entry ctx st env (execCases g esc call cs dflt sv ctx st)
+      ((Spec.Eval.renderMatch reg hasBundle esc entry scall dsem cs (absV sv) env).bind
+        (specRest sd (Spec.Eval.renderDefault reg hasBundle esc entry scall dsem cs env) env))
+  | .nil, _, _, _, dflt, sd, hd, ctx, st, env, hr, hown, hok => by
+    rw [execCases, Spec.Eval.renderMatch, Spec.Eval.renderDefault]
+    simp only [Spec.Eval.Out.bind]
+    rcases hd with ⟨rfl, rfl⟩ | ⟨d, s, rfl, rfl, hds⟩
+    · exact ⟨rfl, by simp [runDefault], hr⟩
+    · exact hds ctx st env hr hown hok
+  | .cons cp values body rest, sv, hsv, hf, dflt, sd, hd, ctx, st, env, hr, hown, hok => by
     simp only [casesFrag, Bool.and_eq_true] at hf
     obtain ⟨m1, m2⟩ := matchCase_sim g entry sv hsv values st hr hf.1.1
-    rw [execCases, Spec.Eval.renderCases]
+    rw [execCases, Spec.Eval.renderMatch]
     have conv : ∀ {st1 : St} {r : R} {o : Out Bytes}, st1.out = st.out → AgreeB coll g entry ctx st1 env r o → AgreeB coll g entry ctx st env r o := by
       intro st1 r o ho h
       cases o with
       | unspec => trivial
       | error => exact h
       | val out => exact ⟨h.1, by rw [h.2.1, ho], h.2.2⟩
-    cases values with
-    | nil =>
-      simp only [List.isEmpty_nil, if_true, matchCase]
-      exact body_agree body hf.1.2 ctx st env hr hok
-    | cons e es =>
-      simp only [List.isEmpty_cons, Bool.false_eq_true, if_false]
-      cases hm : Spec.Eval.matchAny env (absV sv) (e :: es) with
-      | unspec => simp [Spec.Eval.Out.bind, AgreeB]
-      | error => simp [Spec.Eval.Out.bind, AgreeB, m2 hm]
-      | val b =>
-        obtain ⟨st1, hmc, hh, ho⟩ := m1 b hm
-        have hr1 : Rel coll g entry ctx st1 env := hr.of_heap hh
-        have hok1 : ScopeOk ctx st1 := fun f hf' => by rw [hh]; exact hok f hf'
-        have hown1 : Own ctx st1 := hown.ext (Ext.of_heap_eq (W := fun _ => False) hh (matchCase_ext (fun _ => False) _ _ _ _ hmc).foreign)
-        simp only [Spec.Eval.Out.bind, hmc]
-        cases b with
-        | true => simp only [if_true]; exact conv ho (body_agree body hf.1.2 ctx st1 env hr1 hok1)
-        | false =>
-          simp only [Bool.false_eq_true, if_false, List.isEmpty_cons]
-          exact conv ho (cases_agree rest sv hsv hf.2 ctx st1 env hr1 hown1 hok1)
+    cases hm : Spec.Eval.matchAny env (absV sv) values with
+    | unspec => simp [Spec.Eval.Out.bind, AgreeB]
+    | error => simp [Spec.Eval.Out.bind, AgreeB, m2 hm]
+    | val b =>
+      obtain ⟨st1, hmc, hh, ho⟩ := m1 b hm
+      have hr1 : Rel coll g entry ctx st1 env := hr.of_heap hh
+      have hok1 : ScopeOk ctx st1 := fun f hf' => by rw [hh]; exact hok f hf'
+      have hown1 : Own ctx st1 := hown.ext (Ext.of_heap_eq (W := fun _ => False) hh (matchCase_ext (fun _ => False) _ _ _ _ hmc).foreign)
+      simp only [Spec.Eval.Out.bind, hmc]
+      cases b with
+      | true =>
+        simp only [if_true]
+        have hb := conv ho (body_agree body hf.1.2 ctx st1 env hr1 hok1)
+        cases hv : Spec.Eval.renderBlock reg hasBundle esc entry scall dsem body env with
+        | unspec => simp [AgreeB]
+        | error => rw [hv] at hb; simpa [AgreeB] using hb
+        | val out => rw [hv] at hb; simpa [AgreeB, specRest] using hb
+      | false =>
+        simp only [Bool.false_eq_true, if_false]
+        have hbody : ∀ ctx' st' env', Rel coll g entry ctx' st' env' → Own ctx' st' → ScopeOk ctx' st' →
+            AgreeB coll g entry ctx' st' env' (walkBlockOf (execBody g esc call body) ctx' st')
+              (Spec.Eval.renderBlock reg hasBundle esc entry scall dsem body env') :=
+          fun ctx' st' env' hr' _ hok' => body_agree body hf.1.2 ctx' st' env' hr' hok'
+        rcases hd with ⟨rfl, rfl⟩ | ⟨d, s, rfl, rfl, hds⟩
+        · cases values with
+          | nil =>
+            -- the first {default}: remembered on both sides
+            have ih := cases_agree rest sv hsv hf.2 (some (walkBlockOf (execBody g esc call body)))
+              (some (Spec.Eval.renderBlock reg hasBundle esc entry scall dsem body))
+              (Or.inr ⟨_, _, rfl, rfl, hbody⟩) ctx st1 env hr1 hown1 hok1
+            have e : specRest (some (Spec.Eval.renderBlock reg hasBundle esc entry scall dsem body))
+                (Spec.Eval.renderDefault reg hasBundle esc entry scall dsem rest env) env =
+                specRest none (Spec.Eval.renderDefault reg hasBundle esc entry scall dsem (.cons cp [] body rest) env) env := by
+              funext m; cases m <;> simp [specRest, Spec.Eval.renderDefault]
+            rw [← e]
+            exact conv ho ih
+          | cons e0 es =>
+            have ih := cases_agree rest sv hsv hf.2 none none (Or.inl ⟨rfl, rfl⟩) ctx st1 env hr1 hown1 hok1
+            have e : Spec.Eval.renderDefault reg hasBundle esc entry scall dsem (.cons cp (e0 :: es) body rest) env =
+                Spec.Eval.renderDefault reg hasBundle esc entry scall dsem rest env := by
+              rw [Spec.Eval.renderDefault]; simp
+            rw [e]
+            exact conv ho ih
+        · have ih := cases_agree rest sv hsv hf.2 (some d) (some s) (Or.inr ⟨d, s, rfl, rfl, hds⟩) ctx st1 env hr1 hown1 hok1
+          have e : specRest (some s) (Spec.Eval.renderDefault reg hasBundle esc entry scall dsem rest env) env =
+              specRest (some s) (Spec.Eval.renderDefault reg hasBundle esc entry scall dsem (.cons cp values body rest) env) env := by
+            funext m; cases m <;> rfl
+          rw [← e]
+          have hp : pickDefault values (walkBlockOf (execBody g esc call body)) (some d) = some d := by
+            simp [pickDefault]
+          rw [hp]
+          exact conv ho ih
 theorem conds_agree : (cs : CondList) → condsFrag coll cs = true → ∀ (ctx : Scope) (st : St) (env : Spec.Eval.Env),
     Rel coll g entry ctx st env → Own ctx st → ScopeOk ctx st →
     AgreeB coll g entry ctx st env (execConds g esc call cs ctx st) (Spec.Eval.renderConds reg hasBundle esc entry scall dsem cs env)
@@ -2393,6 +2456,26 @@ example : (execute gDir [116] [([120], .str [60, 98, 62, 99])] 4).cls = .ok ∧
       (some (modelDirSem gDir.tbl)) = .val [38, 108, 116, 59, 98, 38, 103, 116, 59, 99, 60, 98, 62, 99, 60, 98] := by rfl
   rw [hs] at h
   exact h
+
+/-- a {default} written BEFORE a {case}: `{switch $x}{default}D{case 'out'}C{case 'zz'}Z{/switch}{switch $x}{default}E{case 'q'}Q{/switch}`
+    on x = 'out': "CE" — the case after the default is found; the default runs when nothing matches -/
+def body3 : Block :=
+  .mk 0 (.cons (.switch 1 (.dataRef 1 [120] .nil)
+      (.cons 2 [] (.mk 2 (.cons (.rawText 2 [68]) .nil))
+        (.cons 3 [.str 3 [] [111, 117, 116]] (.mk 3 (.cons (.rawText 3 [67]) .nil))
+          (.cons 4 [.str 4 [] [122, 122]] (.mk 4 (.cons (.rawText 4 [90]) .nil)) .nil))))
+    (.cons (.switch 5 (.dataRef 5 [120] .nil)
+      (.cons 6 [] (.mk 6 (.cons (.rawText 6 [69]) .nil))
+        (.cons 7 [.str 7 [] [113]] (.mk 7 (.cons (.rawText 7 [81]) .nil)) .nil))) .nil))
+
+example : bufBytes (execBody g0 true (fun _ ctx st => ⟨.fuelOut, ctx, st⟩) body3 ctx0 st0).st.out = [67, 69] := by
+  have hcall : ∀ t, GoodRun ((fun _ ctx st => ⟨.fuelOut, ctx, st⟩ : Registry.Tmpl → Run) t) :=
+    fun _ ctx st _ => ⟨by simp, fun h => by simp at h, Ext.refl _ _⟩
+  have h := exec_refines_lexical_partial g0 rfl true _ hcall [] false env0.vars (fun _ _ => .unspec) none rfl (fun _ => rfl) (fun _ h => by cases h) (fun _ _ _ _ _ _ _ _ => trivial) body3 (by decide) ctx0 st0 env0 rel0
+    ⟨⟨1, false⟩, [⟨0, true⟩], ⟨[], false⟩, rfl, rfl, rfl⟩ (by intro f hf; simp [ctx0] at hf; rcases hf with rfl | rfl <;> simp [st0])
+  have hs : Spec.Eval.renderBlock [] false true env0.vars (fun _ _ => .unspec) none body3 env0 = .val [67, 69] := by rfl
+  rw [hs] at h
+  simpa [bufBytes, st0] using h.2
 
 /-- `{for $i in range(1, 4)}{$i}{/for}{$x}`: "123out" -/
 def body2 : Block :=
